@@ -205,6 +205,26 @@ pub fn scenario(seed: u64, report: &mut Report, sig: &'static str) -> (Scenario,
     (build_scenario(&steps, report, &case_id, sig), case_id)
 }
 
+/// Like `scenario`, but the newest version is INTERRUPTED after several one-entry hunks (head, no tail).
+pub fn scenario_open(seed: u64, report: &mut Report, sig: &'static str) -> (Scenario, Value) {
+    let mut rng = Rng::new(seed ^ 0x0BE7);
+    let go = GenOpts { max_nodes: 9, block: 8, cap: 6, max_depth: 3, ..Default::default() };
+    let mut steps = gen_history(&mut rng, 3, &go, false, false);
+    steps.push(Step::Backup(BackupParamsLite { hunk: 3, block: 8, cap: 6 }));
+    let last_tree = steps.iter().rev().find_map(|s| if let Step::SetTree(t) = s { Some(t.clone()) } else { None }).unwrap();
+    let mut clock = 1_700_000_000_000_000_000;
+    let mut t = mutate_tree(&mut rng, &last_tree, &go, &mut clock);
+    // make sure there are enough entries for several hunks
+    for i in 0..4 {
+        let name = format!("open{i}");
+        t.nodes.insert(format!("/{name}"), Node { comps: vec![name], kind: NodeKind::File(vec![b'o', b'0' + i as u8, b'x', b'y', b'z']), mode: 0o644, mtime_ns: clock + i as i64, uid: 0, gid: 0 });
+    }
+    steps.push(Step::SetTree(t));
+    steps.push(Step::BackupCrash(BackupParamsLite { hunk: 1, block: 8, cap: 6 }, 4, 5));
+    let case_id = json!({"case_seed": seed, "open_newest": true, "history": history_json(&steps)});
+    (build_scenario(&steps, report, &case_id, sig), case_id)
+}
+
 // ---------------------------------------------------------------- C09
 
 pub fn run_c09(tier: &str, seed: u64, report: &mut Report) {
@@ -248,11 +268,27 @@ pub fn run_c09(tier: &str, seed: u64, report: &mut Report) {
     let n_scen = if thorough { 10 } else { 2 };
     for sidx in 0..n_scen {
         let case_seed = seed.wrapping_mul(479001599).wrapping_add(sidx as u64);
-        let (sc, case_id) = scenario(case_seed, report, "dmg-prefix");
+        let (sc, case_id) = if sidx % 2 == 1 { scenario_open(case_seed, report, "dmg-prefix") } else { scenario(case_seed, report, "dmg-prefix") };
         let mut rng = Rng::new(case_seed ^ 0xD);
         let cases = plan(&sc.run.arch, &mut rng, if thorough { 6 } else { 2 }, true);
         let mut session = Session::new();
         let mut pend = Vec::new();
+        // interrupted versions (head, no tail): what they restore to BEFORE the damage
+        let pre_map = state_map(&sc.pre_state);
+        let complete: BTreeSet<u32> = complete_bands(&sc.pre_state).into_iter().collect();
+        let mut open_baseline: BTreeMap<u32, (RunResult, Vec<Obs>)> = BTreeMap::new();
+        for b in all_bands(&sc.pre_state) {
+            let has_head = pre_map.get(&format!("{}/BANDHEAD", band_name(b))).map(|v| v.starts_with("head:")).unwrap_or(false);
+            if !complete.contains(&b) && has_head {
+                let a = fresh_copy(&sc, "base");
+                let (rr, robs) = restore_observe(&a, sc.run.work.path(), &Sel::Band(b), &format!("base{b}"));
+                remove_copy(&a);
+                if !reports_error(&rr) {
+                    report.hit("open-version-baseline");
+                    open_baseline.insert(b, (rr, robs));
+                }
+            }
+        }
         for dc in &cases {
             // removal of a BANDTAIL is the format's legal "incomplete" state
             if file_class(&dc.rel) == "tail" && dc.damage == Damage::Delete {
@@ -279,6 +315,26 @@ pub fn run_c09(tier: &str, seed: u64, report: &mut Report) {
                             }
                         }
                         _ => harmed.push(band_name(b)),
+                    }
+                }
+            }
+            // interrupted versions: harmed = restores differently from before the damage.  The one case
+            // that cannot be detected (Props/C09 `open_band_trailing_hunk_loss_undetectable`): the LAST hunk
+            // of a version without tail is removed or emptied — that is also the legal state of a killed backup.
+            for (b, (_, base_obs)) in &open_baseline {
+                let differs = match out.restores.get(b) {
+                    Some(Some((rr, robs))) => reports_error(rr) || crate::c01::tree_diff(base_obs, robs).is_some(),
+                    _ => true,
+                };
+                if differs {
+                    let idx_prefix = format!("{}/i/", band_name(*b));
+                    let last_hunk = pre_map.keys().filter(|k| k.starts_with(&idx_prefix) && file_class(k) == "hunk").max().cloned();
+                    let trailing = last_hunk.as_deref() == Some(dc.rel.as_str()) && matches!(dc.damage, Damage::Delete | Damage::Truncate0);
+                    if trailing {
+                        report.hit("undetectable:trailing-hunk-of-open-version");
+                    } else {
+                        report.hit("damage-harms-an-open-version");
+                        harmed.push(band_name(*b));
                     }
                 }
             }
